@@ -206,3 +206,73 @@ def h_run_completes(i1: int, i2: int) -> bool:
     with NoTracing():
         ok = check_run(idx, FORMATS[(i0 + i1 + i2) % 5])
     return done(ok)
+
+
+# ------------------------------------------------------------------ root names that collide with names the writer uses itself
+ROOT_NAMES = ["index", "classIndex", "moduleIndex", "nameIndex", "undoccedSummary", "searchindex", "objects", "apidocs", "plain"]
+
+
+def check_root_named(ni, package, two_roots):
+    d = tempfile.mkdtemp(prefix="verif_c01r_")
+    out = None
+    name = ROOT_NAMES[ni]
+    try:
+        if package:
+            os.mkdir(os.path.join(d, name))
+            with open(os.path.join(d, name, "__init__.py"), "wb") as f:
+                f.write(b"'''Root package.'''\ndef f():\n    '''f'''\nclass K:\n    '''K'''\n")
+            with open(os.path.join(d, name, "sub.py"), "wb") as f:
+                f.write(b"'''Sub-module.'''\n")
+            root = Path(d) / name
+        else:
+            with open(os.path.join(d, name + ".py"), "wb") as f:
+                f.write(b"'''Root module.'''\ndef f():\n    '''f'''\nclass K:\n    '''K'''\n")
+            root = Path(d) / (name + ".py")
+        with open(os.path.join(d, "other.py"), "wb") as f:
+            f.write(b"'''A second root.'''\n")
+        opts = copy.copy(OPTS)
+        opts.projectbasedirectory = Path(d)
+        s = model.System(opts)
+        s.msg = lambda *a, **k: None
+        ctx = dict(root=name, kind="package" if package else "module", roots=2 if two_roots else 1)
+        sample(**ctx)
+        try:
+            if package:
+                s.addPackage(root, None)
+            else:
+                s.addModuleFromPath(root, None)
+            if two_roots:
+                s.addModuleFromPath(Path(d) / "other.py", None)
+            s.process()
+            out = crawl.render(s, "classic")
+        except Exception as e:
+            note(why="the run aborts with an uncaught exception", exc=repr(e)[:300], **ctx)
+            return False
+        for f in ("index.html", "objects.inv", "searchindex.json", "all-documents.html"):
+            if f not in out.files:
+                note(why="expected output file missing", file=f, **ctx)
+                return False
+        return True
+    finally:
+        if out is not None:
+            out.close()
+        shutil.rmtree(d, ignore_errors=True)
+
+
+@harness(
+    timeout=(300, 600), cls="E", tracing="concrete-after-choice", twin="first", unblock=UNBLOCK,
+    code=["pydoctor.templatewriter.writer.TemplateWriter.writeSummaryPages (single-root symlink)", "writeIndividualFiles", "pydoctor.model.Documentable.url", "pydoctor.sphinx.SphinxInventoryWriter"],
+    bounds={"quick": "a root module or package named like a file the writer creates itself (index, classIndex, moduleIndex, nameIndex, undoccedSummary, searchindex, objects) or not, alone or next to a second root: the run completes and writes its files", "thorough": "same"},
+    outside="what the colliding pages then contain (a root named like a summary page replaces it: name collision, reported nowhere)",
+)
+def h_root_named(ni: int, package: bool, two: bool) -> bool:
+    """
+    pre: 0 <= ni < 9
+    post: _
+    """
+    ni = pick(ni, 0, 8)
+    package = pickb(package)
+    two = pickb(two)
+    with NoTracing():
+        ok = check_root_named(ni, package, two)
+    return done(ok)
